@@ -2,7 +2,7 @@
 """Generates the MC_NixFile_<name>.cfg model-checking configurations (constants only; all definitions are in NixFile.tla)."""
 import os
 os.chdir(os.path.dirname(os.path.abspath(__file__)))
-ALLACTS = ["Create", "CreateBad", "Delete", "DeleteAbsent", "AddLink", "RemoveLink", "SetOne", "SetAttr", "SetType", "SetDef",
+ALLACTS = ["Create", "CreateBad", "Delete", "DeleteAbsent", "AddLink", "RemoveLink", "SetLinks", "SetOne", "SetAttr", "SetType", "SetDef",
            "AppendDim", "DeleteDims", "Flush", "Close", "Crash", "Open"]
 ALLSLOTS = ["blocks", "sections", "arrays", "frames", "tags", "mtags", "groups", "sources", "props", "features"]
 ALLLINKS = ["refs", "esources", "garrays", "gframes", "gtags", "gmtags"]
@@ -52,6 +52,7 @@ for tier, k in (("q", 3), ("t", 4)):
     cfg("c03c_" + tier, N2, k, ["blocks", "sources", "groups", "mtags", "arrays"], [], [], CD, life=2, emit=J3)
     cfg("c03d_" + tier, N1, k, ["blocks", "arrays", "tags", "sources", "groups"], ["refs", "esources", "garrays", "gtags"], [],
         ["Create", "Link", "Close", "Open"], life=2, emit=J3)
+    cfg("c03f_" + tier, N2, k, ["blocks", "arrays", "tags", "groups"], ["refs", "garrays"], [], ["Create", "Links", "Close", "Open"], life=2, steps=k + 4, emit=["SetLinks", "Open"])
     cfg("c03e_" + tier, N3, k, ["blocks"], [], [], CD, life=2, emit=J3)
     # C04: deletion in link graphs (sibling structures need two names)
     J4 = ["Delete"]
@@ -67,6 +68,7 @@ for tier, k in (("q", 3), ("t", 4)):
     R = ["Create", "CreateBad", "Delete", "Link", "One", "Foreign", "Type"]
     cfg("c08a_" + tier, N1, k + 1, ["blocks", "arrays", "tags", "mtags", "features"], ["refs"], ["positions", "extents", "data"], R, res="reject")
     cfg("c08b_" + tier, N1, k, ["blocks", "sources", "arrays", "groups", "frames"], ["esources", "garrays", "gframes"], [], R, res="reject")
+    cfg("c08d_" + tier, N1, k + 1, ["blocks", "arrays", "tags", "sources", "groups"], ["refs", "esources", "garrays", "gtags"], [], ["Create", "Link", "Links", "Foreign"], steps=k + 3, res="reject")
     cfg("c08c_" + tier, N1, k, ["blocks", "sections", "props", "sources"], [], ["metadata", "link"], R, steps=k + 2, res="reject")
     # C02: reopen identity (every history, close + reopen in either mode; also flush / reopen inside)
     A2 = ["Create", "Delete", "Link", "One", "Attr", "Type", "Def", "Dims", "Flush", "Close", "Open"]
@@ -94,6 +96,6 @@ for tier, k in (("q", 3), ("t", 4)):
     cfg("c20c_" + tier, N1, k + 2, ["blocks", "sections", "sources", "arrays", "tags", "mtags"], ["esources"], ["metadata"], ["Create", "Link", "One", "Delete", "Query"], steps=k + 4, emit=["QueryAll"])
 # the whole vocabulary, for simulation
 cfg("all", N2, 9, ALLSLOTS, ALLLINKS, ALLONES,
-    ["Create", "CreateBad", "Delete", "DeleteAbsent", "Link", "One", "Foreign", "Attr", "Type", "Def", "Dims", "Flush", "Close", "Open"], life=3, dims=2)
+    ["Create", "CreateBad", "Delete", "DeleteAbsent", "Link", "Links", "One", "Foreign", "Attr", "Type", "Def", "Dims", "Flush", "Close", "Open"], life=3, dims=2)
 cfg("all_life", N2, 9, ALLSLOTS, ALLLINKS, ALLONES,
     ["Create", "Delete", "Link", "One", "Attr", "Type", "Def", "Dims", "Flush", "Close", "Open", "Crash", "OpenOw"], life=6, dims=2)
